@@ -6,6 +6,7 @@ import (
 	"fmt"
 	"go/ast"
 	"go/token"
+	"sort"
 	"strings"
 )
 
@@ -87,6 +88,17 @@ func digEnumSwitch(what string, sw *ast.SwitchStmt, envs map[string]*constEnv,
 			continue
 		}
 		b, ok := digQualConst(envs, dflt, val)
+		if !ok && digSpecialClauses != nil {
+			var body []string
+			for _, s := range cc.Body {
+				body = append(body, digNodeString(s))
+			}
+			for _, l := range cc.List {
+				a, _ := digQualConst(envs, dflt, l)
+				*digSpecialClauses = append(*digSpecialClauses, [2]string{a, strings.Join(body, "; ")})
+			}
+			continue
+		}
 		if !ok {
 			fail("%s: value %s not a constant", what, digNodeString(val))
 			continue
@@ -115,6 +127,15 @@ func digEnumSwitchStmts(what string, sw *ast.SwitchStmt, envs map[string]*constE
 		}
 	}
 	return pairs, nil
+}
+
+func digSortPairs(ps [][2]string) {
+	sort.SliceStable(ps, func(i, j int) bool {
+		if len(ps[i][0]) != len(ps[j][0]) {
+			return len(ps[i][0]) < len(ps[j][0])
+		}
+		return ps[i][0] < ps[j][0]
+	})
 }
 
 func digFindSwitchByTag(body ast.Node, tag string) *ast.SwitchStmt {
@@ -208,6 +229,11 @@ func digNewSubmitCtx(fn *ast.FuncDecl, files []*ast.File, envs map[string]*const
 			case *ast.AssignStmt:
 				if x.Tok == token.DEFINE && len(x.Rhs) == 1 {
 					if id, ok := x.Lhs[0].(*ast.Ident); ok {
+						if _, isAssert := x.Rhs[0].(*ast.TypeAssertExpr); isAssert {
+							// `ask, ok := o.(*order.Ask)`: the order cast to its side
+							sx.alias[id.Name] = "castOrder"
+							return true
+						}
 						define(id.Name, x.Rhs[0])
 						if len(x.Lhs) == 2 {
 							if id2, ok := x.Lhs[1].(*ast.Ident); ok {
@@ -468,10 +494,50 @@ func digGenOrderDigestFacts() {
 			fail("SubmitOrder: composite literal %s not found", n)
 		}
 	}
-	// later plain assignments to fields (details.X = …) bypass the literal
-	// mapping: list (field, target)
+	// `v := &Lit{…}` followed by straight-line `v.Field = expr` statements (top
+	// level of the function body, unconditional) is the same as listing the
+	// field in the literal: merge them (a later assignment wins).
+	litVar := map[string]string{}
+	topLevel := map[ast.Stmt]bool{}
+	for _, st := range so.Body.List {
+		as, ok := st.(*ast.AssignStmt)
+		if !ok || len(as.Lhs) != 1 || len(as.Rhs) != 1 {
+			continue
+		}
+		if id, ok := as.Lhs[0].(*ast.Ident); ok && as.Tok == token.DEFINE {
+			if u, ok := as.Rhs[0].(*ast.UnaryExpr); ok {
+				if cl, ok := u.X.(*ast.CompositeLit); ok {
+					litVar[id.Name] = digNodeString(cl.Type)
+				}
+			}
+			continue
+		}
+		sel, ok := as.Lhs[0].(*ast.SelectorExpr)
+		if !ok || as.Tok != token.ASSIGN {
+			continue
+		}
+		if v, ok := sel.X.(*ast.Ident); ok && lits[litVar[v.Name]] != nil {
+			name := litVar[v.Name]
+			val := sx.canon(as.Rhs[0])
+			replaced := false
+			for k := range lits[name] {
+				if lits[name][k][0] == sel.Sel.Name {
+					lits[name][k][1], replaced = val, true
+				}
+			}
+			if !replaced {
+				lits[name] = append(lits[name], [2]string{sel.Sel.Name, val})
+			}
+			topLevel[st] = true
+		}
+	}
+	// any other assignment to a field (conditional, in a loop, indexed) is
+	// listed as (field, target)
 	var fieldAssigns [][2]string
 	ast.Inspect(so.Body, func(n ast.Node) bool {
+		if st, ok := n.(ast.Stmt); ok && topLevel[st] {
+			return false
+		}
 		if as, ok := n.(*ast.AssignStmt); ok && as.Tok == token.ASSIGN && len(as.Lhs) == 1 {
 			lhs := as.Lhs[0]
 			if ix, ok := lhs.(*ast.IndexExpr); ok {
@@ -486,6 +552,7 @@ func digGenOrderDigestFacts() {
 	enumTable := func(suffix string) ([][2]string, bool) {
 		for tag, e := range sx.enums {
 			if strings.HasSuffix(tag, suffix) {
+				digSortPairs(e.pairs)
 				return e.pairs, e.defaultIsError
 			}
 		}
@@ -516,32 +583,86 @@ func digGenOrderDigestFacts() {
 		}
 	}
 	// ---- order/rpc_parse.go: ParseRPCOrder (the trader's order as built from the RPC request)
+	// The model consumes the channel-type table; it is looked for in the function
+	// itself or in a same-package function / method it hands details.ChannelType
+	// to. Assignments and guards are emitted for information only (their tie is
+	// the byte-exact `parse` correspondence).
 	var poAssigns, poSpecial, poCtPairs [][2]string
 	var poGuards, poCtDefault []string
 	po := findFunc(files, "ParseRPCOrder")
 	if po == nil {
 		fail("order.ParseRPCOrder not found")
 	} else {
-		for _, st := range po.Body.List {
-			if as, ok := st.(*ast.AssignStmt); ok && as.Tok == token.ASSIGN && len(as.Lhs) == 1 {
-				poAssigns = append(poAssigns, [2]string{digNodeString(as.Lhs[0]), digNodeString(as.Rhs[0])})
-			}
-			// the tag-less guard switch on the min units match
-			if sw, ok := st.(*ast.SwitchStmt); ok && sw.Tag == nil {
-				for _, c := range sw.Body.List {
-					cc := c.(*ast.CaseClause)
-					for _, l := range cc.List {
-						poGuards = append(poGuards, digNodeString(l))
+		ast.Inspect(po.Body, func(n ast.Node) bool {
+			switch x := n.(type) {
+			case *ast.AssignStmt:
+				if x.Tok == token.ASSIGN && len(x.Lhs) == len(x.Rhs) {
+					for k := range x.Lhs {
+						poAssigns = append(poAssigns, [2]string{digNodeString(x.Lhs[k]), digNodeString(x.Rhs[k])})
 					}
 				}
+			case *ast.SwitchStmt:
+				if x.Tag == nil {
+					for _, c := range x.Body.List {
+						for _, l := range c.(*ast.CaseClause).List {
+							poGuards = append(poGuards, digNodeString(l))
+						}
+					}
+				}
+			case *ast.IfStmt:
+				if digReturnsError(x.Body.List) && !digIsErrCheck(x.Cond) {
+					poGuards = append(poGuards, digNodeString(x.Cond))
+				}
 			}
+			return true
+		})
+		sw := digFindSwitchByTag(po.Body, "details.ChannelType")
+		if sw == nil {
+			// follow a helper that receives details.ChannelType
+			ast.Inspect(po.Body, func(n ast.Node) bool {
+				call, ok := n.(*ast.CallExpr)
+				if !ok || sw != nil {
+					return true
+				}
+				for k, a := range call.Args {
+					if digNodeString(a) != "details.ChannelType" {
+						continue
+					}
+					fname := ""
+					switch f := call.Fun.(type) {
+					case *ast.Ident:
+						fname = f.Name
+					case *ast.SelectorExpr:
+						fname = f.Sel.Name
+					}
+					for _, file := range files {
+						for _, d := range file.Decls {
+							fd, ok := d.(*ast.FuncDecl)
+							if !ok || fd.Name.Name != fname || fd.Body == nil {
+								continue
+							}
+							idx := 0
+							for _, f := range fd.Type.Params.List {
+								for _, pn := range f.Names {
+									if idx == k {
+										sw = digFindSwitchByTag(fd.Body, pn.Name)
+									}
+									idx++
+								}
+							}
+						}
+					}
+				}
+				return true
+			})
 		}
-		if sw := digFindSwitchByTag(po.Body, "details.ChannelType"); sw == nil {
-			fail("ParseRPCOrder: channel type switch not found")
+		if sw == nil {
+			fail("ParseRPCOrder: channel type mapping not found")
 		} else {
 			digSpecialClauses = &poSpecial
 			poCtPairs, poCtDefault = digEnumSwitch("ParseRPCOrder channel type", sw, envs, "order")
 			digSpecialClauses = nil
+			digSortPairs(poCtPairs)
 		}
 	}
 	toSat := findFunc(files, "SupplyUnit.ToSatoshis")
